@@ -846,16 +846,10 @@ def check_public_faults(ctx: Ctx, res: Result):
     writes of the same rank are still in flight.  Property: wait() raises on EVERY rank, nobody hangs, no metadata."""
     from props import commit_common as cc
     rng = ctx.rng
-    # designed workloads first: whether a write fails while a SIBLING write of the same rank is in flight in the
-    # background phase depends on the knobs (an I/O concurrency cap of 1, or a tight budget, serialises the writes), so the
-    # sweep does not leave that to the random draw: many unbatched entries on the failing rank, concurrency cap 2 / default
-    designed = [
-        {"W": 2, "batching": False, "chunk": None, "replicated": False, "conc": 2, "budget": None, "slab": None, "shared_len": 8,
-         "ranks": [{"priv": [3, 5, 2, 7, 4, 6], "extra_key": False, "prim": 1}, {"priv": [2, 2, 3], "extra_key": True, "prim": 2}]},
-        {"W": 3, "batching": False, "chunk": 16, "replicated": True, "conc": None, "budget": None, "slab": None, "shared_len": 20,
-         "ranks": [{"priv": [2, 9], "extra_key": False, "prim": 5}, {"priv": [4, 4, 4, 8, 1], "extra_key": False, "prim": 6},
-                   {"priv": [1], "extra_key": True, "prim": 7}]},
-    ]
+    # designed workloads first (commit_common.designed_workloads): whether a write fails while a SIBLING write of the same
+    # rank is in flight in the background phase depends on the knobs (an I/O concurrency cap of 1, or a tight budget,
+    # serialises the writes), so the sweep does not leave that to the random draw
+    designed = [w for w in cc.designed_workloads() if w["W"] >= 2][:(6 if ctx.thorough else 3)]
     for i in range(len(designed) + ctx.n(4, 20)):
         wl = designed[i] if i < len(designed) else cc.make_workload(rng)
         if wl["W"] < 2:
